@@ -126,6 +126,12 @@ def handle (op : String) (j : Json) : Option (Except String Json) :=
       .ok (J.ofOp (planeWaveKinetic (← J.natList (← J.field j "length")) (← J.bool (← J.field j "spinless"))))
   | "c13.pw_potential" => some do
       .ok (J.ofOp (planeWavePotential (← J.natList (← J.field j "length")) (← J.bool (← J.field j "spinless"))))
+  | "c13.pw_kinetic_struct" => some do
+      .ok (J.ofList (fun (t, n) => Json.arr #[J.ofTerm t, J.ofIntList n])
+        (planeWaveKineticStruct (← J.natList (← J.field j "length")) (← J.bool (← J.field j "spinless"))))
+  | "c13.pw_potential_struct" => some do
+      .ok (J.ofList (fun (t, n) => Json.arr #[J.ofTerm t, J.ofIntList n])
+        (planeWavePotentialStruct (← J.natList (← J.field j "length")) (← J.bool (← J.field j "spinless"))))
   | "c13.dual_structure" => some do
       .ok (ofStructure (dualBasisStructure (← J.natList (← J.field j "length"))
         (← J.bool (← J.field j "spinless")) (← J.bool (← J.field j "kinetic"))
